@@ -437,6 +437,13 @@ def run(tier, only=None):
                     m.prob.final_setup()
                     for pn in m.points:
                         wiring.check(R, m.prob, pn, "aerostruct:compressible=%s:rotational=%s:points=%d:internally_connect_fuelburn=%s:user_specified_Sref=%s:%s" % (comp, rot, npnt, icf, bool(icf) != bool(comp), pn))
+    # ... for every structural model x symmetry x side (nothing below the point is left dangling: OASWiring dangling rows)
+    for fem in ("tube", "wingbox"):
+        for sym, side, ny in ((True, "L", 3), (True, "R", 3), (False, "F", 5)):
+            sw = dict(name="wing", nx=2, ny=ny, sym=sym, side=side, shape="swept", visc=True, fem=fem, relief=True, span=20.0, chord=3.0)
+            m = B.ASModel([sw], rng=np.random.default_rng(1))
+            m.prob.final_setup()
+            wiring.check(R, m.prob, "AS_point_0", "aerostruct:fem=%s:symmetry=%s:side=%s" % (fem, sym, side))
     # ... and for every combination of the load options of a surface (weight relief x distributed fuel x point masses): inside
     # struct_states every load contribution the options switch on reaches the sum of the loads (OASWiring.ReadsOwnOutput)
     for relief in (False, True):
